@@ -216,7 +216,7 @@ def run_binary(chk, mode, build, binary, cases, tag, stack_every=0):
     cf = os.path.join(chk.work, "cases_%s_%s_%s.txt" % (mode, build, tag))
     of = os.path.join(chk.work, "launch_%s_%s_%s.ndjson" % (mode, build, tag))
     write_cases(cf, binary, cases, stack_every)
-    p = subprocess.run([LAUNCH, cf, of, "8000", "12"], stdout=subprocess.PIPE, stderr=subprocess.PIPE, timeout=3000)
+    p = subprocess.run([LAUNCH, cf, of, "5000", "10"], stdout=subprocess.PIPE, stderr=subprocess.PIPE, timeout=3000)
     if p.returncode != 0:
         raise core.ToolError("launch failed rc=%d: %s" % (p.returncode, p.stderr.decode()[-500:]))
     res = {}
@@ -227,7 +227,7 @@ def run_binary(chk, mode, build, binary, cases, tag, stack_every=0):
         raise core.ToolError("launch reported %d of %d cases" % (len(res), len(cases)))
     recs, raws = [], []
     for i, c in enumerate(cases):
-        if res[i].get("status") == "skipped":      # the launcher gave up on this binary after 12 consecutive failures
+        if res[i].get("status") == "skipped":      # the launcher gave up on this binary after 10 consecutive / 30 failures in total
             continue
         if res[i].get("status") == "execfail":
             raise core.ToolError("execve of %s failed: errno %s" % (binary, res[i].get("code")))
